@@ -1224,3 +1224,174 @@ mod tests {
         assert!(matches!(updater.ops[2], LeafOp::Insert(_, _, _)));
     }
 }
+
+/// Verification hook (compiled only with `--cfg nomt_verif`): the real [`LeafUpdater`] on caller-supplied
+/// base leaves (built with the real [`LeafBuilder`]), with a [`HandleNewLeaf`] collector that records the
+/// produced leaves (read back through the real `LeafNode` accessors), the separators and cutoffs, the log
+/// of the `with_deleted_overflow` callback, and a read-only view of the private state (`ops`, gauge,
+/// `base.low`, `separator_override`). Nothing here is used by the store itself.
+#[cfg(nomt_verif)]
+pub mod verif {
+    use super::{
+        BaseLeaf, DigestResult, HandleNewLeaf, Key, LeafBuilder, LeafNode, LeafOp, LeafUpdater,
+        PagePool,
+    };
+    use std::sync::Arc;
+
+    /// The constants the updater works with, for the harness's independent size oracle.
+    pub mod consts {
+        pub const BODY: usize = crate::beatree::leaf::node::LEAF_NODE_BODY_SIZE;
+        pub const MAX_VALUE: usize = crate::beatree::leaf::node::MAX_LEAF_VALUE_SIZE;
+        pub const MERGE: usize = super::super::super::LEAF_MERGE_THRESHOLD;
+        pub const BULK_THRESHOLD: usize = super::super::super::LEAF_BULK_SPLIT_THRESHOLD;
+        pub const BULK_TARGET: usize = super::super::super::LEAF_BULK_SPLIT_TARGET;
+    }
+
+    /// `(key, cell bytes, is_overflow)`
+    pub type Entry = (Key, Vec<u8>, bool);
+
+    /// One call of `handle_new_leaf`: separator, the node's entries, cutoff.
+    pub type Produced = (Key, Vec<Entry>, Option<Key>);
+
+    /// A `LeafOp` made printable: `Insert(key, value length, overflow)` / `KeepChunk(from, to, values size)`.
+    #[derive(Debug, Clone, PartialEq, Eq)]
+    pub enum OpView {
+        Insert(Key, usize, bool),
+        KeepChunk(usize, usize, usize),
+    }
+
+    /// The private state of the updater: ops, gauge `(n, value_size_sum)`, `base.low`, `separator_override`,
+    /// `cutoff`.
+    #[derive(Debug, Clone, PartialEq, Eq)]
+    pub struct StateView {
+        pub ops: Vec<OpView>,
+        pub gauge: (usize, usize),
+        pub low: Option<usize>,
+        pub separator_override: Option<Key>,
+        pub cutoff: Option<Key>,
+    }
+
+    struct Collector {
+        leaves: Vec<Produced>,
+        // fail the k-th call (0-based) of `handle_new_leaf` with an I/O error
+        fail_at: Option<usize>,
+    }
+
+    /// Read a node back through `n()`, `key(i)`, `value(i)`.
+    pub fn entries_of(node: &LeafNode) -> Vec<Entry> {
+        (0..node.n())
+            .map(|i| {
+                let (v, o) = node.value(i);
+                (node.key(i), v.to_vec(), o)
+            })
+            .collect()
+    }
+
+    impl HandleNewLeaf for Collector {
+        fn handle_new_leaf(
+            &mut self,
+            separator: Key,
+            node: LeafNode,
+            cutoff: Option<Key>,
+        ) -> std::io::Result<()> {
+            if self.fail_at == Some(self.leaves.len()) {
+                return Err(std::io::Error::new(std::io::ErrorKind::Other, "verif: leaf write refused"));
+            }
+            self.leaves.push((separator, entries_of(&node), cutoff));
+            Ok(())
+        }
+    }
+
+    /// `LeafBuilder::new(n, total) + push_cell × n + finish` — what `make_leaf` of the unit tests does.
+    pub fn make_leaf(pool: &PagePool, entries: &[Entry]) -> LeafNode {
+        let total = entries.iter().map(|(_, v, _)| v.len()).sum();
+        let mut builder = LeafBuilder::new(pool, entries.len(), total);
+        for (k, v, o) in entries {
+            builder.push_cell(*k, v, *o);
+        }
+        builder.finish()
+    }
+
+    /// What `digest` answered: the leaves handed to `handle_new_leaf` in order and `Ok(Some(cutoff))` for
+    /// `NeedsMerge(cutoff)`, `Ok(None)` for `Finished`, `Err(())` for an I/O error of the handler.
+    pub type DigestOutcome = (Vec<Produced>, Result<Option<Key>, ()>);
+
+    pub struct LeafUpdaterSim {
+        updater: LeafUpdater,
+        pool: PagePool,
+    }
+
+    impl LeafUpdaterSim {
+        fn base(pool: &PagePool, base: Option<(&[Entry], Key)>) -> Option<BaseLeaf> {
+            base.map(|(entries, separator)| BaseLeaf::new(Arc::new(make_leaf(pool, entries)), separator))
+        }
+
+        /// `LeafUpdater::new(page_pool, base, cutoff)`
+        pub fn new(base: Option<(&[Entry], Key)>, cutoff: Option<Key>) -> Self {
+            let pool = PagePool::new();
+            let base = Self::base(&pool, base);
+            LeafUpdaterSim {
+                updater: LeafUpdater::new(pool.clone(), base, cutoff),
+                pool,
+            }
+        }
+
+        /// `reset_base(base, cutoff)`
+        pub fn reset_base(&mut self, base: Option<(&[Entry], Key)>, cutoff: Option<Key>) {
+            let base = Self::base(&self.pool, base);
+            self.updater.reset_base(base, cutoff);
+        }
+
+        pub fn remove_cutoff(&mut self) {
+            self.updater.remove_cutoff();
+        }
+
+        pub fn is_in_scope(&self, key: &Key) -> bool {
+            self.updater.is_in_scope(key)
+        }
+
+        pub fn separator(&self) -> Key {
+            self.updater.separator()
+        }
+
+        /// `ingest(key, value_change, overflow, cb)`: the cells handed to `cb`, in order.
+        pub fn ingest(&mut self, key: Key, value_change: Option<Vec<u8>>, overflow: bool) -> Vec<Vec<u8>> {
+            let mut log = Vec::new();
+            self.updater
+                .ingest(key, value_change, overflow, |cell: &[u8]| log.push(cell.to_vec()));
+            log
+        }
+
+        /// `digest(new_leaves)`; `fail_at = Some(k)`: the handler refuses its k-th leaf (0-based).
+        pub fn digest(&mut self, fail_at: Option<usize>) -> DigestOutcome {
+            let mut collector = Collector {
+                leaves: Vec::new(),
+                fail_at,
+            };
+            let res = match self.updater.digest(&mut collector) {
+                Ok(DigestResult::NeedsMerge(cutoff)) => Ok(Some(cutoff)),
+                Ok(DigestResult::Finished) => Ok(None),
+                Err(_) => Err(()),
+            };
+            (collector.leaves, res)
+        }
+
+        pub fn state(&self) -> StateView {
+            StateView {
+                ops: self
+                    .updater
+                    .ops
+                    .iter()
+                    .map(|op| match op {
+                        LeafOp::Insert(k, v, o) => OpView::Insert(*k, v.len(), *o),
+                        LeafOp::KeepChunk(from, to, size) => OpView::KeepChunk(*from, *to, *size),
+                    })
+                    .collect(),
+                gauge: (self.updater.gauge.n, self.updater.gauge.value_size_sum),
+                low: self.updater.base.as_ref().map(|b| b.low),
+                separator_override: self.updater.separator_override,
+                cutoff: self.updater.cutoff,
+            }
+        }
+    }
+}
